@@ -180,6 +180,26 @@ class C10(IRCheck):
             for x in xs:
                 gs.append([{"case": "t%d_%d" % (op, x), "op": "optable", "o": op, "w": 1, "x": [x], "nodes": [], "root": 0,
                             "envs": env}])
+        # results around the machine-word boundaries: operands whose product / sum / quotient crosses 2^32, 2^64, 2^128
+        # (bit lengths adding up to the boundary and one more or less), at operation widths on both sides of 8 bytes
+        def nbytes(v, w):
+            return [(v >> (8 * i)) & 255 for i in range(w)]
+        for w in (4, 8, 9, 12, 16, 24, 32):
+            for total in (31, 32, 33, 63, 64, 65, 66, 127, 128, 129):
+                if total > 8 * w + 8:
+                    continue
+                for la in sorted({1, 2, total // 2, total - 33, total - 32, total - 2, total - 1}):
+                    lb = total - la
+                    if la < 1 or lb < 1 or la > 8 * w or lb > 8 * w:
+                        continue
+                    for (x, y) in (((1 << la) - 1, (1 << lb) - 1), (1 << (la - 1), 1 << (lb - 1)), ((1 << la) - 1, (1 << (lb - 1)) + 1),
+                                   (3 << max(0, la - 2), (1 << lb) - 1)):
+                        for op in (4, 1, 5):
+                            t = Table()
+                            wa, wb = max(1, (la + 7) // 8), max(1, (lb + 7) // 8)
+                            ia, ib = t.const(nbytes(x, rng.choice([wa, w]))), t.const(nbytes(y, rng.choice([wb, w])))
+                            gs.append([case("g%d" % k, "fold", t, t.bin(op, ia, ib, w), env)])
+                            k += 1
         self.exhaustive = tier == "thorough"
         return gs
 
